@@ -110,6 +110,24 @@ def parallel_tables(F, S):
     inst = AR + "ArchiveFile::GetNamesFromPaths#order-preserving"
     good = len(loops) == 1 and len(pb) == 1 and gn.term(loops[0]["range"]) == ("var", gn.params[0]["n"], gn.params[0]["d"]) and \
         gn.term(pb[0]["args"][0])[0] == "call" and gn.term(pb[0]["args"][0])[1].endswith("XFile::GetFilename")
+    if not good and not loops:
+        # algorithm form: std::transform(paths.begin(), paths.end(), std::back_inserter(out), p -> GetFilename(p)) appends in order
+        pv = ("var", gn.params[0]["n"], gn.params[0]["d"])
+        for nd in gn.nodes:
+            if nd["k"] in CALLS and (nd.get("fq") or "") == "std::transform" and len(nd.get("args", [])) == 4:
+                a = [gn.term(x) for x in nd["args"]]
+                rng = a[0][0] == "call" and a[0][1].endswith("begin") and a[0][2] == pv and a[1][0] == "call" and a[1][1].endswith("end") and a[1][2] == pv
+                sink = a[2][0] == "call" and a[2][1] == "std::back_inserter"
+                lam = F.functions.get(a[3][1]) if a[3][0] == "lambda" else None
+                body_ok = False
+                if lam is not None and len(lam.params) == 1:
+                    rs = [x for x in lam.nodes if x["k"] == "ReturnStmt" and "value" in x]
+                    if len(rs) == 1:
+                        rt = lam.term(rs[0]["value"])
+                        body_ok = rt[0] == "call" and rt[1].endswith("XFile::GetFilename") and rt[3] == (("var", lam.params[0]["n"], lam.params[0]["d"]),)
+                if rng and sink and body_ok:
+                    good = True
+                    loops = [nd]
     if good:
         out.append(ok("R-MUSTCALL", inst, gn.loc(loops[0]["id"]), gn.qn, "names[i] = GetFilename(paths[i]) in order", "push_back in a range-for over the paths"))
     else:
